@@ -142,43 +142,52 @@ def decLoop (v : Variant) (st : DecState) (peek : Bool) : Nat → Loc → DecOut
               store := l'.store, reads := l'.reads, writes := l'.writes }
           else decLoop v st peek n l'
 
+/-- "consume previous message": state afterwards, `done`, `mlen` -/
+def decPrev (st : DecState) : DecState × Nat × Nat :=
+  match st.msg with
+  | some m => ({ st with len := st.len - m, msg := none }, st.pos + m, st.len - m)
+  | none => (st, st.pos, st.len)
+
+/-- "encoded data start": the slack must lie inside the supplied data -/
+def decEnter (st : DecState) (store : List Byte) (done mlen proc : Nat) : (Err × DecState) ⊕ (DecState × Loc) :=
+  if store.length < done + mlen + proc then .inl (.BadArgument, st)
+  else .inr (st, { store := store, done := done, mlen := mlen, proc := proc, code := st.ctx % 256, pos := (st.ctx / 256) % 256 })
+
+/-- the part of `_decode` in front of the block loop: consistency check, previous message, alignment of a
+    new message.  Either an error exit (with the state as left behind) or the state and loop variables. -/
+def decPrep (st : DecState) (segs : List Seg) (store : List Byte) (peek : Bool) : (Err × DecState) ⊕ (DecState × Loc) :=
+  let dlen := st.pos + st.len
+  -- consume processed data
+  if dlen > st.curr ∨ store.length < dlen then .inl (.BadArgument, st)
+  -- consume previous message
+  else if st.msg.isSome ∧ peek = true then .inl (.BadOperation, st)
+  else if (decPrev st).2.2 = 0 then
+    -- align offset for target data
+    if peek = true then .inl (.BadOperation, (decPrev st).1)
+    else
+      let post := alignPost (cursorAt segs dlen).1 (cursorAt segs dlen).2 (st.curr - dlen)
+      decEnter { (decPrev st).1 with pos := dlen + post } store (dlen + post) 0 (st.curr - dlen - post)
+  else decEnter (decPrev st).1 store (decPrev st).2.1 (decPrev st).2.2 (st.curr - dlen)
+
+/-- "finished with complete block/message": read the first code byte of a block sequence, then loop -/
+def decStart (v : Variant) (st : DecState) (peek : Bool) (l : Loc) : DecOut :=
+  if l.code = 0 then
+    match l.store[l.r]? with
+    | none => { ret := .val 0, st := st, store := l.store }
+    | some c =>
+      if c = 0 then
+        -- double/leading zero
+        { ret := .err .BadValue, st := { st with curr := l.r + 1 }, store := l.store, reads := [l.r] }
+      else decLoop v st peek (l.store.length - (l.r + 1)) { l with proc := l.proc + 1, code := c.toNat, reads := [l.r] }
+  else decLoop v st peek (l.store.length - l.r) l
+
 /-- `mpt_decode_cobs` / `_decode` of decode_cobs_zpe.c with `source != NULL`.
     `peek` = `sourcelen == 0` (single segment, no new message). -/
 def decodeCobs (v : Variant) (st : DecState) (segs : List Seg) (peek : Bool) : DecOut :=
   let segs := if peek then segs.take 1 else segs
-  let store := flat segs
-  let fail (st : DecState) (e : Err) : DecOut := { ret := .err e, st := st, store := store }
-  let code := st.ctx % 256
-  let dlen := st.pos + st.len
-  -- consume processed data
-  if dlen > st.curr ∨ store.length < dlen then fail st .BadArgument else
-  let proc := st.curr - dlen
-  -- consume previous message
-  if st.msg.isSome ∧ peek then fail st .BadOperation else
-  let done := st.pos + st.msg.getD 0
-  let mlen := st.len - st.msg.getD 0
-  let st := if st.msg.isSome then { st with len := mlen, msg := none } else st
-  -- align offset for target data
-  if mlen = 0 ∧ peek then fail st .BadOperation else
-  let cur := cursorAt segs dlen
-  let post := if mlen = 0 then alignPost cur.1 cur.2 proc else 0
-  let done := if mlen = 0 then dlen + post else done
-  let proc := proc - post
-  let st := if mlen = 0 then { st with pos := done } else st
-  -- encoded data start
-  if store.length < done + mlen + proc then fail st .BadArgument else
-  let l : Loc := { store := store, done := done, mlen := mlen, proc := proc, code := code, pos := (st.ctx / 256) % 256 }
-  if code = 0 then
-    -- finished with complete block/message: read the first code byte
-    match store[l.r]? with
-    | none => { ret := .val 0, st := st, store := store }
-    | some c =>
-      let l := { l with proc := l.proc + 1, code := c.toNat, reads := [done + mlen + proc] }
-      if c = 0 then
-        -- double/leading zero
-        { ret := .err .BadValue, st := { st with curr := l.r }, store := store, reads := l.reads }
-      else decLoop v st peek (store.length - l.r) l
-  else decLoop v st peek (store.length - l.r) l
+  match decPrep st segs (flat segs) peek with
+  | .inl (e, st) => { ret := .err e, st := st, store := flat segs }
+  | .inr (st, l) => decStart v st peek l
 
 /-- `_decode_r`: tail inline fix-up on top of the regular decoder -/
 def decodeCobsR (v : Variant) (st : DecState) (segs : List Seg) (peek : Bool) : DecOut :=
